@@ -968,6 +968,68 @@ def _fold_reflection(fnode):
     return True
 
 
+def _fold_tuple_realias(fnode):
+    """`T = Y1, Y2 = E` ... `X1, X2 = T` (an inlined helper unpacking the pair it was handed): while Y1, Y2 are bound nowhere
+    else and not read after the second unpacking, X1, X2 are Y1, Y2 - renamed so, and the second unpacking dropped."""
+    stores = {}
+    for n in ast.walk(fnode):
+        if isinstance(n, ast.Name) and isinstance(n.ctx, (ast.Store, ast.Del)):
+            stores[n.id] = stores.get(n.id, 0) + 1
+    pairs = {}
+    for n in ast.walk(fnode):
+        if isinstance(n, ast.Assign) and len(n.targets) == 2:
+            nm = [t for t in n.targets if isinstance(t, ast.Name)]
+            tp = [t for t in n.targets if isinstance(t, ast.Tuple) and all(isinstance(e, ast.Name) for e in t.elts)]
+            if len(nm) == 1 and len(tp) == 1 and stores.get(nm[0].id) == 1:
+                pairs[nm[0].id] = [e.id for e in tp[0].elts]
+    if not pairs:
+        return False
+    changed = False
+    # textual order of the nodes as they stand now (inlined statements keep the line numbers of their helper)
+    order = {}
+
+    def number(n_):
+        order[id(n_)] = len(order)
+        for c_ in ast.iter_child_nodes(n_):
+            number(c_)
+    number(fnode)
+
+    def fix(stmts):
+        nonlocal changed
+        out = []
+        for st in stmts:
+            if isinstance(st, ast.Assign) and len(st.targets) == 1 and isinstance(st.targets[0], ast.Tuple) and isinstance(st.value, ast.Name) \
+                    and st.value.id in pairs and len(st.targets[0].elts) == len(pairs[st.value.id]) \
+                    and all(isinstance(e, ast.Name) for e in st.targets[0].elts):
+                ys = pairs[st.value.id]
+                xs = [e.id for e in st.targets[0].elts]
+                line = order.get(id(st), 0)
+                ok = all(stores.get(y) == 1 for y in ys) and len(set(xs)) == len(xs) and not (set(xs) & set(ys)) and \
+                    not any(isinstance(x, ast.Name) and x.id in ys and isinstance(x.ctx, ast.Load) and order.get(id(x), 0) > line
+                            for x in ast.walk(fnode))
+                # the X's first binding is this statement
+                ok = ok and all(not any(isinstance(x, ast.Name) and x.id == xn and order.get(id(x), 0) < line for x in ast.walk(fnode)) for xn in xs)
+                # not inside a loop (a later iteration would read the rebound Y)
+                ok = ok and not any(isinstance(lp, (ast.For, ast.While)) and any(q is st for q in ast.walk(lp)) for lp in ast.walk(fnode))
+                if ok:
+                    mp = dict(zip(xs, ys))
+                    for x in ast.walk(fnode):
+                        if isinstance(x, ast.Name) and x.id in mp:
+                            x.id = mp[x.id]
+                    for y in ys:
+                        stores[y] = stores.get(y, 0) + 5        # now rebound: no further folding onto them
+                    changed = True
+                    continue
+            for field in ('body', 'orelse', 'finalbody'):
+                blk = getattr(st, field, None)
+                if isinstance(blk, list) and blk and isinstance(blk[0], ast.stmt) and not isinstance(st, (ast.FunctionDef, ast.ClassDef)):
+                    setattr(st, field, fix(blk) or [ast.Pass()])
+            out.append(st)
+        return out
+    fnode.body = fix(fnode.body)
+    return changed
+
+
 def _leading_ifs(n):
     """the if statements whose tests are evaluated before any other statement inside `n` runs: n itself, an if that is the
     first statement of a body or of an else-branch of such an if"""
@@ -1238,6 +1300,7 @@ def inline_program(prog):
         folded = _fold_condition_vars(fn.node) or folded
         folded = _fold_field_aliases(fn.node) or folded
         folded = _fold_attr_snapshots(fn.node) or folded
+        folded = _fold_tuple_realias(fn.node) or folded
         folded = _merge_conditional_tail(fn.node) or folded
         folded = _split_or_guards(fn.node) or folded
         folded = _list_accumulators_to_tuples(fn.node) or folded
